@@ -213,3 +213,18 @@ check('C16', 'model_checking',
       'DESIGN.md §3 C16, Appendix B')
 for k in CHECKS:
     NOT_YET.pop(k, None)
+
+check('C17', 'exploration',
+      'complete enumeration of a scene product; end-to-end chain of the example notebook with threshold oracles',
+      'Full product K{2,3} x D{K+1,K+2,8} x (F,T) x {cACGMM, cWMM} x 3 activity partitions x 3 permutation-field '
+      'families (identity; 70 %-majority in the first DHTV segment with an adversarial rest and a cyclically shifted '
+      'majority order; seeded rest) on synthetic scenes with generic per-frequency steering vectors and -40 dB '
+      'sensor noise; chain: fit per frequency from the permuted blurred partition -> predict -> DHTV -> oracle global '
+      'alignment -> mask-based PSDs -> get_bf_vector for 13 interference-cancelling names -> '
+      'apply_beamforming_vector on images and noise -> output_sxr. MAP accuracy >= 99 % and SIR >= 30 dB for every '
+      'source and beamformer (observed margin: 100 %, >= 50 dB).',
+      'Custom DHTV plans for F=33/65 are chosen inside the two-thirds-overlap domain of C16; the quick tier drops '
+      'part of the F=257 product (stated in the evidence).',
+      'DESIGN.md §3 C17')
+for k in CHECKS:
+    NOT_YET.pop(k, None)
